@@ -1,5 +1,6 @@
 mod asm;
 mod dev;
+mod dhcp;
 mod frag;
 mod frames;
 mod neigh;
@@ -17,6 +18,7 @@ fn main() {
     }
     let args = util::Args::parse(&argv[2..]);
     util::quiet_panics();
+    util::init_log();
     match argv[1].as_str() {
         "asm-replay" => asm::replay(&args),
         "asm-random" => asm::random(&args),
@@ -24,6 +26,7 @@ fn main() {
         "frag-replay" => frag::replay(&args),
         "frag-random" => frag::random(&args),
         "neigh-random" => neigh::random(&args),
+        "dhcp-random" => dhcp::random(&args),
         "pollat-random" => pollat::random(&args),
         "tcp-pair" => tcp::pair(&args),
         "tcp-peer-replay" => tcp::peer_replay(&args),
